@@ -930,6 +930,7 @@ def t_cmp(t):
         if any(ch in e["O"] + e["P"] for ch in "\t\n"):
             continue
         e["target"] = call(sfs_verify.compare_target_stack, O, P)
+        e["stores"] = call(sfs_verify.compare_storage_userdef_ins, O["src_ws"], P["src_ws"], O["user_instrs"], P["user_instrs"])
         vo = [x for x in dict.fromkeys(list(O["tgt_ws"]) + [a for u in O["user_instrs"] for a in u["inpt_sk"]] + list(O["src_ws"]))][:8]
         vp = [x for x in dict.fromkeys(list(P["tgt_ws"]) + [a for u in P["user_instrs"] for a in u["inpt_sk"]] + list(P["src_ws"]))][:8]
         pairs, outs = [], []
